@@ -13,6 +13,7 @@ import (
 	"github.com/lyraproj/pcore/loader"
 	"github.com/lyraproj/pcore/pcore"
 	"github.com/lyraproj/pcore/px"
+	"github.com/lyraproj/pcore/types"
 	"verifharness/lib"
 )
 
@@ -22,6 +23,16 @@ type ldefT struct {
 	Parent int   `json:"parent"` // -1: the static loader itself (only loader 0)
 	File   bool  `json:"file,omitempty"`
 	Files  []int `json:"files,omitempty"` // names (indices into nameTab) that have a file under this loader
+	Bad    []int `json:"bad,omitempty"`   // those of Files whose file cannot be instantiated (syntax error, wrong or no definition)
+}
+
+func (l ldefT) isBad(n int) bool {
+	for _, b := range l.Bad {
+		if b == n {
+			return true
+		}
+	}
+	return false
 }
 
 type opT struct {
@@ -61,7 +72,7 @@ func (o opT) gallina() string {
 func progKey(c caseT) string {
 	var b strings.Builder
 	for _, l := range c.Cfg {
-		fmt.Fprintf(&b, "%d,%v,%v;", l.Parent, l.File, l.Files)
+		fmt.Fprintf(&b, "%d,%v,%v,%v;", l.Parent, l.File, l.Files, l.Bad)
 	}
 	b.WriteString("|")
 	for _, th := range c.Prog {
@@ -121,7 +132,11 @@ func gCfg(cfg []ldefT) string {
 		for i, n := range l.Files {
 			fs[i] = fmt.Sprintf("(%d%%N, %s)", n, gVal(fileVid(d, n, 0)))
 		}
-		ls[d] = fmt.Sprintf("mkL %s %s %s", par, lib.GBool(l.File), lib.GList(fs, "key * val"))
+		bad := make([]string, len(l.Bad))
+		for i, n := range l.Bad {
+			bad[i] = fmt.Sprintf("%d%%N", n)
+		}
+		ls[d] = fmt.Sprintf("mkL %s %s %s %s", par, lib.GBool(l.File), lib.GList(fs, "key * val"), lib.GList(bad, "key"))
 	}
 	return lib.GList(ls, "ldef")
 }
@@ -149,7 +164,7 @@ func gSched(s []int) string {
 // ---- results ---------------------------------------------------------------------------------------------
 
 type opRes struct {
-	Kind  string      // found | defined | bool | err | fault | other
+	Kind  string      // found | defined | bool | err | fileerr | fault | other
 	raw   interface{} // the value handed out (found, defined)
 	Found bool
 	B     bool
@@ -170,6 +185,8 @@ func (r opRes) gallina() string {
 		return "RBool " + lib.GBool(r.B)
 	case "err":
 		return "RErr"
+	case "fileerr":
+		return "RFileErr"
 	}
 	return "RFault"
 }
@@ -187,6 +204,8 @@ func (r opRes) String() string {
 		return fmt.Sprint(r.B)
 	case "err":
 		return "error " + r.Text
+	case "fileerr":
+		return "instantiation failed " + r.Text
 	}
 	return r.Kind + " " + r.Text
 }
@@ -221,10 +240,26 @@ func setupRuntime(out string) {
 
 var dirMade = map[string]bool{}
 
-func fileDir(d int, files []int) string {
+// the text of a file that cannot be instantiated; the three ways in which InstantiatePuppetType gives up
+// (loader/instantiate.go): the parser rejects it, it defines another name, it defines nothing
+func badFileText(d, n int) string {
+	switch (d + n) % 3 {
+	case 0:
+		return fmt.Sprintf("type %s = Object[{\n  attributes => {\n    first => String\n    second => Integer\n  }\n}]\n", nameTab[n])
+	case 1:
+		return fmt.Sprintf("type %sOther = Integer[%d,%d]\n", nameTab[n], d, 100+n)
+	}
+	return "# nothing is defined here\n"
+}
+
+func fileDir(d int, l ldefT) string {
+	files := l.Files
 	ks := make([]string, len(files))
 	for i, n := range files {
 		ks[i] = fmt.Sprint(n)
+		if l.isBad(n) {
+			ks[i] += "b"
+		}
 	}
 	dir := filepath.Join(fsRoot, fmt.Sprintf("l%d-%s", d, strings.Join(ks, "_")))
 	if !dirMade[dir] {
@@ -234,7 +269,11 @@ func fileDir(d int, files []int) string {
 		}
 		for _, n := range files {
 			p := filepath.Join(dir, "types", strings.ToLower(nameTab[n])+".pp")
-			if err := os.WriteFile(p, []byte(fmt.Sprintf("type %s = Integer[%d,%d]\n", nameTab[n], d, 100+n)), 0o644); err != nil {
+			text := fmt.Sprintf("type %s = Integer[%d,%d]\n", nameTab[n], d, 100+n)
+			if l.isBad(n) {
+				text = badFileText(d, n)
+			}
+			if err := os.WriteFile(p, []byte(text), 0o644); err != nil {
 				panic(err)
 			}
 		}
@@ -262,7 +301,7 @@ func newWorld(cfg []ldefT) *world {
 		case l.Parent < 0:
 			ld = px.StaticLoader()
 		case l.File:
-			dir = fileDir(d, l.Files)
+			dir = fileDir(d, l)
 			ld = px.NewFileBasedLoader(w.loaders[l.Parent], dir, ``, px.PuppetDataTypePath)
 		default:
 			ld = px.NewParentedLoader(w.loaders[l.Parent])
@@ -287,10 +326,21 @@ func (w *world) chain(l int) []int {
 	return up
 }
 
-// fileLevel: the file based loader in the chain of l that has a file for n (-1: none)
+// badLevel: some file based loader in the chain of l has a file for n that cannot be instantiated
+func (w *world) badLevel(l, n int) bool {
+	for _, d := range w.chain(l) {
+		if w.cfg[d].File && w.cfg[d].isBad(n) {
+			return true
+		}
+	}
+	return false
+}
+
+// fileLevel: the file based loader in the chain of l that has a file for n which defines n (-1: none).  A loader
+// whose file for n is broken never binds n: loads go on to the loaders below it once the failure is cached.
 func (w *world) fileLevel(l, n int) int {
 	for _, d := range w.chain(l) {
-		if w.cfg[d].File {
+		if w.cfg[d].File && !w.cfg[d].isBad(n) {
 			for _, f := range w.cfg[d].Files {
 				if f == n {
 					return d
@@ -359,8 +409,12 @@ func classifyPanic(r interface{}) opRes {
 		return opRes{Kind: "fault", Text: re.Error()}
 	}
 	if rep, ok := r.(issue.Reported); ok {
-		if rep.Code() == px.AttemptToRedefine {
+		switch rep.Code() {
+		case px.AttemptToRedefine:
 			return opRes{Kind: "err", Text: string(rep.Code())}
+		case types.ParseError, px.ParseError, px.WrongDefinition, px.NoDefinition:
+			// the instantiator gave up on the file (loader/instantiate.go, types/parser.go)
+			return opRes{Kind: "fileerr", Text: string(rep.Code())}
 		}
 		return opRes{Kind: "other", Text: string(rep.Code())}
 	}
